@@ -1,10 +1,16 @@
 import Proofs.Expr
 import Proofs.ExprLit
 import Proofs.ExprParse
+import Proofs.ExprParen
+import Proofs.ExprLex
+import Proofs.ExprLexLit
+import Proofs.ExprChars
+import Proofs.ExprReal
 /-!
 # C04 — constant expressions evaluate exactly, with the Specification's precedence
 
-Model: `Model/Expr.lean` (`Ex.eval`, `Ex.evalBin`, `Ex.toks`, `Ex.parseTokens`, literal decoders).
+Model: `Model/Expr.lean` (`Ex.eval`, `Ex.evalBin`, `Ex.toks`, `Ex.parseTokens`, literal decoders, the character-level
+lexer `Ex.lex` / `Ex.parseChars` and the renderer `Ex.renderToks`).
 The statements below are about the model; the model is tied to pydsdl by the correspondence suite `expr`.
 -/
 open Ex
@@ -215,6 +221,130 @@ example : toks (.un .neg (.bin .pow (.lit (.int "2")) (.lit (.int "2"))))
 example : toks (.bin .pow (.un .neg (.lit (.int "2"))) (.lit (.int "2")))
     = [.lp, .sym .minus, .lit (.int "2"), .rp, .sym .starstar, .lit (.int "2")] := by decide
 
-/-- the same for the printer that parenthesises every compound sub-expression (checked on every generated case by the
-    model driver; not proved) -/
+/-- the same for the printer that parenthesises every compound sub-expression -/
 def C04.precedence_full_statement : Prop := ∀ e : Expr, parseTokens (toksFull e) = some e
+
+theorem C04.precedence_full : C04.precedence_full_statement := roundtrip_full
+
+example : toksFull (.un .neg (.bin .pow (.lit (.int "2")) (.lit (.int "2"))))
+    = [.lp, .sym .minus, .lp, .lit (.int "2"), .sym .starstar, .lit (.int "2"), .rp, .rp] := by decide
+
+/-- **Precedence is independent of redundant parentheses.**  `Paren 0 e ts` (Proofs/ExprParen.lean) is the family of all
+    token lists obtained from the minimal rendering `toks e` by additionally wrapping any sub-expression -- compound or
+    atomic, the whole expression included -- in any number of pairs of parentheses (rule `Paren.wrap`; the other rules
+    are the clauses of `toksAt`, so the parentheses the precedence table requires are always present).  Every member
+    of the family is parsed back to `e` by the PEG. -/
+theorem C04.precedence_any_parens {e : Expr} {ts : List Tok} (h : Paren 0 e ts) : parseTokens ts = some e :=
+  paren_roundtrip h
+
+/-- the two printers of the model belong to the family, and the family is closed under wrapping the whole rendering in
+    any number of pairs -/
+theorem C04.precedence_family (e : Expr) :
+    Paren 0 e (toks e) ∧ Paren 0 e (toksFull e) ∧
+    (∀ ts, Paren 0 e ts → ∀ n, Paren 0 e (wrapN (n+1) ts)) :=
+  ⟨paren_toks e, paren_toksFull 0 e, fun _ h n => h.wrapN n 0⟩
+
+/-- `((1)) + (2 * ((3)))` is an admissible rendering of `1 + 2 * 3` -/
+example : Paren 0 (.bin .add (.lit (.int "1")) (.bin .mul (.lit (.int "2")) (.lit (.int "3"))))
+    [.lp, .lp, .lit (.int "1"), .rp, .rp, .sym .plus, .lp, .lit (.int "2"), .sym .star, .lp, .lp, .lit (.int "3"), .rp, .rp, .rp] :=
+  Paren.bin 0 .add _ _ [.lp, .lp, .lit (.int "1"), .rp, .rp] [.lp, .lit (.int "2"), .sym .star, .lp, .lp, .lit (.int "3"), .rp, .rp, .rp]
+    (by decide)
+    (Paren.wrap _ _ [.lp, .lit (.int "1"), .rp] (Paren.wrap _ _ [.lit (.int "1")] (Paren.lit _ _)))
+    (Paren.wrap _ _ [.lit (.int "2"), .sym .star, .lp, .lp, .lit (.int "3"), .rp, .rp]
+      (Paren.bin 0 .mul _ _ [.lit (.int "2")] [.lp, .lp, .lit (.int "3"), .rp, .rp] (by decide) (Paren.lit _ _)
+        (Paren.wrap _ _ [.lp, .lit (.int "3"), .rp] (Paren.wrap _ _ [.lit (.int "3")] (Paren.lit _ _)))))
+
+/-- The parentheses the table requires cannot be dropped: no token list is an admissible rendering of two different
+    trees (so `1 + 2 * 3` without parentheses is no rendering of `(1 + 2) * 3`). -/
+theorem C04.precedence_unambiguous {e e' : Expr} {ts : List Tok} (h : Paren 0 e ts) (h' : Paren 0 e' ts) : e = e' :=
+  paren_unique h h'
+
+/-! ## characters -/
+
+/-- **The terminals of the grammar, longest match included, invert the renderer.**  For every list of well-formed
+    tokens (`Tok.ok`: the text of the token is one terminal that denotes it -- decidable) and every spacing `σ` (any run
+    of spaces and tabs before each token and at the end; a single space is put where two neighbours would fuse into
+    other terminals: `*`+`*`, `<`+`==`, `1`+`.`, name+name …), lexing the rendered characters gives the tokens back.
+    This covers `<=` before `<`, `**` before `*`, `||`, `&&`, `==`, `!=`, `>=`, identifiers and `true`/`false`,
+    integer literals in the four bases, real literals in every form, and both kinds of string literals. -/
+theorem C04.lexer_roundtrip (σ : Spacing) (ts : List Tok) (hok : ∀ t ∈ ts, t.ok = true) :
+    lex (renderToks σ ts) = some ts := lex_render σ ts hok
+
+example : (∀ t ∈ [Tok.id "a", .sym .le, .sym .minus, .lit (.int "0x_fF"), .sym .starstar, .lit (.real "1.5e-3"), .sym .oror,
+      .sym .bang, .lit (.bool true), .sym .neq, .lit (.str "'it\\'s'"), .dot, .id "count"], t.ok = true) := by decide
+example : renderToks (fun _ => []) [Tok.sym .star, .sym .starstar, .sym .lt, .sym .eqeq, .lit (.int "1"), .dot, .id "a", .id "b"]
+    = "* **< ==1 .a b".toList := by decide
+example : renderToks (fun i => if i = 2 then [true, false] else []) [Tok.id "a", .sym .le, .sym .minus, .lit (.int "1")]
+    = "a<=\t -1".toList := by decide
+example : renderToks (fun _ => []) [Tok.lit (.int "0xE"), .sym .plus, .lit (.real "1e+1"), .sym .minus, .lit (.int "2")]
+    = "0xE+1e+1-2".toList := by decide
+/-- what is not a terminal of its kind: an identifier the grammar reads as a literal or a type, a literal with a stray
+    separator -/
+example : (Tok.id "trueish").ok = false ∧ (Tok.id "uint8x").ok = false ∧ (Tok.lit (.int "1_")).ok = false ∧
+    (Tok.lit (.int "0x")).ok = false ∧ (Tok.lit (.real "1")).ok = false := by decide
+
+/-- Characters → value for integer literals: the text of a prefixed literal as the grammar writes it (`0b` / `0o` / `0x`,
+    either case, digit separators), followed by anything that is no name character and no `.`, is ONE terminal, lexed as
+    an integer literal of exactly that text, and that text denotes the number of its digits. -/
+theorem C04.lexer_literals_prefixed (radix : Nat) (p : Char) (ws : List DigitW) (hne : ws ≠ [])
+    (hp : (radix = 2 ∧ (p = 'b' ∨ p = 'B')) ∨ (radix = 8 ∧ (p = 'o' ∨ p = 'O')) ∨ (radix = 16 ∧ (p = 'x' ∨ p = 'X')))
+    (h : ∀ w ∈ ws, w.d < radix) (R : List Char) (hR : ∀ c ∈ R.head?, isIdentChar c = false ∧ c ≠ '.') :
+    lexOne ('0' :: p :: writeDigits ws ++ R) = some (.lit (.int (String.ofList ('0' :: p :: writeDigits ws))), R) ∧
+    evalLit (.int (String.ofList ('0' :: p :: writeDigits ws))) = .ok (.rat ((numeral radix (ws.map (·.d)) : Nat) : Rat)) := by
+  refine ⟨lexOne_prefixed radix p ws hne hp h R (fun c hc => by simp [qNum, (hR c hc).1, (hR c hc).2]), ?_⟩
+  simp [evalLit, decodeInt_prefixed radix p ws hne hp h, Except.map]
+
+/-- … and the same for decimal literals `[1-9](_?[0-9])*` within CPython's conversion limit. -/
+theorem C04.lexer_literals_decimal (w : DigitW) (ws : List DigitW) (hus : w.us = false) (h0 : w.d ≠ 0)
+    (h : ∀ x ∈ w :: ws, x.d < 10) (hlen : (w :: ws).length ≤ pyIntMaxDigits)
+    (R : List Char) (hR : ∀ c ∈ R.head?, isIdentChar c = false ∧ c ≠ '.') :
+    lexOne (writeDigits (w :: ws) ++ R) = some (.lit (.int (String.ofList (writeDigits (w :: ws)))), R) ∧
+    evalLit (.int (String.ofList (writeDigits (w :: ws)))) = .ok (.rat ((numeral 10 ((w :: ws).map (·.d)) : Nat) : Rat)) := by
+  refine ⟨lexOne_decimal w ws hus h0 h R (fun c hc => by simp [qNum, (hR c hc).1, (hR c hc).2]), ?_⟩
+  simp only [evalLit, String.toList_ofList, decodeInt_decimal (w :: ws) (by simp) h hlen, Except.map]
+
+example : lexOne "0x_fF+1".toList = some (.lit (.int "0x_fF"), "+1".toList) := by decide
+example : lexOne "1_000<=".toList = some (.lit (.int "1_000"), "<=".toList) := by decide
+example : lexOne "1.e5)".toList = some (.lit (.real "1.e5"), ")".toList) := by decide
+
+/-- **Characters → tree.**  Any admissible parenthesisation of any tree whose literals and names are terminals
+    (`Expr.lexOk`, decidable), rendered with any blanks, is lexed and parsed back to the tree. -/
+theorem C04.chars_roundtrip {e : Expr} {ts : List Tok} (h : Paren 0 e ts) (hok : e.lexOk = true) (σ : Spacing) :
+    parseChars (renderToks σ ts) = some e := parseChars_render h hok σ
+
+/-- … in particular for the two printers of the model -/
+theorem C04.chars_roundtrip_printers (e : Expr) (hok : e.lexOk = true) (σ : Spacing) :
+    parseChars (renderToks σ (toks e)) = some e ∧ parseChars (renderToks σ (toksFull e)) = some e :=
+  ⟨parseChars_render (paren_toks e) hok σ, parseChars_render (paren_toksFull 0 e) hok σ⟩
+
+example : (Expr.bin .lt (.lit (.int "1")) (.un .neg (.attr (.lit (.int "1")) "count"))).lexOk = true := by decide
+example : renderToks (fun i => if i = 1 then [false, true] else [])
+    (toks (.bin .lt (.lit (.int "1")) (.un .neg (.attr (.lit (.int "1")) "count")))) = "1 \t<-1 .count".toList := by decide
+
+/-! ## real literals -/
+
+/-- Point notation `digits? . digits?` (digit separators anywhere the grammar admits them): the decoded rational is
+    exactly the digits' number divided by ten to the number of fraction digits. -/
+theorem C04.literals_real_point (ip fp : List DigitW) (hne : ip ≠ [] ∨ fp ≠ [])
+    (hi : ∀ w ∈ ip, w.d < 10) (hf : ∀ w ∈ fp, w.d < 10) (hlen : ip.length + fp.length ≤ pyIntMaxDigits) :
+    decodeReal (writeDigits ip ++ '.' :: writeDigits fp)
+      = .ok ((numeral 10 ((ip ++ fp).map (·.d)) : Rat) * (10 : Rat) ^ (- (fp.length : Int))) :=
+  decodeReal_point_zpow ip fp hne hi hf hlen
+
+example : decodeReal "1_0.2_5".toList = .ok (41/4) := by decide +kernel
+
+/-- Exponent notation `(digits | point notation) (e|E) [+-] digits`: the decoded rational is exactly
+    mantissa × 10^(±exponent − number of fraction digits). -/
+theorem C04.literals_real_exponent (ip fp : List DigitW) (dot : Bool) (E : Char) (sign : Option Bool) (ed : List DigitW)
+    (hE : E = 'e' ∨ E = 'E') (hne : ip ≠ [] ∨ (dot = true ∧ fp ≠ [])) (hdot : dot = false → fp = []) (hed : ed ≠ [])
+    (hi : ∀ w ∈ ip, w.d < 10) (hf : ∀ w ∈ fp, w.d < 10) (he : ∀ w ∈ ed, w.d < 10)
+    (hlen : ip.length + fp.length ≤ pyIntMaxDigits) :
+    decodeReal (writeDigits ip ++ (if dot then '.' :: writeDigits fp else []) ++ E :: signChars sign ++ writeDigits ed)
+      = .ok ((numeral 10 ((ip ++ fp).map (·.d)) : Rat)
+          * (10 : Rat) ^ ((if sign = some true then - (numeral 10 (ed.map (·.d)) : Int) else (numeral 10 (ed.map (·.d)) : Int))
+                - (fp.length : Int))) :=
+  decodeReal_exp_zpow ip fp dot E sign ed hE hne hdot hed hi hf he hlen
+
+example : decodeReal ".5e-3".toList = .ok (1/2000) := by decide +kernel
+example : decodeReal "1e10".toList = .ok 10000000000 := by decide +kernel
+example : decodeReal "1_0.2_5E+0_3".toList = .ok 10250 := by decide +kernel
